@@ -403,8 +403,8 @@ PROPERTIES = {
                     "bit/time conversion for bit counts above 2^17 at rates other than 9.6/19.2 kbit/s and the token-lost stagger for slot times other than the eight listed ones (64-bit multiply/divide equivalences with both operands symbolic gave no verdict within an hour)"],
     },
     "C02": {
-        "claim": "LAS algebra + per-station level: (L1) the real bitvec TokenRing methods agree with a 128-bit reference model on bounded LAS populations, and the model satisfies the ring lemmas (a pass removes exactly the jumped-over addresses and adds the sender; three rotations of a 2..5 station ring yield a valid LAS equal to the ring with NS/PS the cyclic neighbours; stability under in-order passes); (L2) every station state reports exactly the witnessed token passes, in order, to its ring view, answers 'ready' only with a valid view and only to PS, adopts a ready GAP responder as NS, and after claiming regards its view as valid and scans the full GAP. The multi-station convergence bound and joint agreement are NOT decided.",
-        "assumptions": ["convergence time bound and agreement across stations are paper arguments (DESIGN §5.4)", "L1 equivalence bounded by LAS population (see harness bounds)"],
+        "claim": "LAS algebra + per-station level: (L1) the control flow of the real TokenRing mutators and the real update_las_from_token_pass (full width, every ring view under TokenRing's invariant, every pass) agree with a 128-bit reference model - with the neighbour search update_next_previous replaced by the model, the one leaf without a verdict - and the model satisfies the ring lemmas (a pass removes exactly the jumped-over addresses and adds the sender; three rotations of a 2..5 station ring yield a valid LAS equal to the ring with NS/PS the cyclic neighbours; stability under in-order passes); (L2) every station state reports exactly the witnessed token passes, in order, to its ring view, answers 'ready' only with a valid view and only to PS, adopts a ready GAP responder as NS, and after claiming regards its view as valid and scans the full GAP. The multi-station convergence bound and joint agreement are NOT decided.",
+        "assumptions": ["convergence time bound and agreement across stations are paper arguments (DESIGN §5.4)", "the bitvec neighbour search update_next_previous computes the cyclic neighbours of TS in the LAS (NOT proved: no verdict in any shape tried, DESIGN section 0/6); native replays run the real code"],
         "outside": ["multi-station convergence and its bound"],
     },
     "C05": {
